@@ -56,6 +56,8 @@ def structures(tier):
         sts.append({'kind': 'listing', 'q': q})
     sts.append({'kind': 'decode'})
     sts.append({'kind': 'decode-sequence'})
+    sts.append({'kind': 'decode-sequence', 'same_parser': True})
+    sts.append({'kind': 'decode-sequence', 'same_parser': True, 'first': 'bundled'})
     sts.append({'kind': 'decode-same-name'})
     sts.append({'kind': 'text-representatives'})
     return sts
@@ -154,9 +156,16 @@ def run_decode_sequence(ctx, st):
         t1 = {e: 'BSC_getpid'}
     p = _parser(ctx)
     try:
-        out1 = list(p.traces(make_stream(K.v2_file([], 0, recs)), t1))
-        out2 = list(_parser(ctx).traces(make_stream(K.v2_file([], 0, recs)), t))
-        p3 = _parser(ctx)
+        if st.get('first') == 'bundled':
+            # first request with the bundled table (e is assumed to be none of the ids it decodes), then the supplied one
+            out1 = list(p.traces(make_stream(K.v2_file([], 0, [K.pack_rec(1001, [1, 2, 3, 4], 0x1d3, 0x40c0050 | 1),
+                                                                K.pack_rec(1002, [0, 0x41, 0, 0], 0x1d3, 0x40c0050 | 2)]))))
+            p2 = p
+        else:
+            out1 = list(p.traces(make_stream(K.v2_file([], 0, recs)), t1))
+            p2 = p if st.get('same_parser') else _parser(ctx)
+        out2 = list(p2.traces(make_stream(K.v2_file([], 0, recs)), t))
+        p3 = p2 if st.get('same_parser') else _parser(ctx)
         for c in ('show_timestamp', 'show_func_qual', 'show_tid', 'show_process', 'show_args'):
             setattr(p3, c, False)
         lines = list(p3.formatted_kevents(make_stream(K.v2_file([], 0, recs[:1])), t))
@@ -165,6 +174,8 @@ def run_decode_sequence(ctx, st):
         ctx.check('C19/sequence/no-error', False, '%s: %s' % (type(ex).__name__, ex)); ctx.reach(); return
     ctx.check('C19/sequence/first-table-honoured', len(out1) == 1 and type(out1[0]).__name__ == 'BscGetpid')
     ctx.check('C19/sequence/second-table-honoured', len(out2) == 0, 'an id absent from the second table was decoded (%d traces)' % len(out2))
+    ctx.check('C19/sequence/listing-uses-the-table-given', len(lines) == 1 and not any(c.isalpha() and c not in 'abcdefx' for c in str(lines[0]).strip()) if not ctx.symbolic else len(lines) == 1,
+              'an id absent from the supplied table is listed as %r' % (lines[:1],))
     ctx.reach()
 
 
